@@ -204,6 +204,234 @@ theorem tpsa_translation_unique (dim3 : Bool) (fs : Faces) (cells : Nat → Cell
   have := hns st (translation t) hst hT c hc
   simpa [translation, Vec.zero] using this
 
+/-- translation vector used in the concrete instances below -/
+def tEx : Vec := ⟨3, -5/2, 0⟩
+
+/-! ### nonsingularity proved for classes of grids -/
+
+/-- NONSINGULARITY FOR A CLASS: every one-cell grid (any number of faces, any normals, areas, distances, shear
+    moduli; 2-D and 3-D) with Dirichlet conditions on all faces has at most one solution, provided the cell is
+    closed, the sum of the face transmissibilities does not vanish (true for positive weights) and
+    `vol/mu`, `vol/lambda` are non-zero. -/
+theorem nonsingular_one_cell_dirichlet (dim3 : Bool) (fs : Faces) (cells : Nat → Cell)
+    (h1 : OneCellDir fs) (hcl : closure 0 fs = Vec.zero)
+    (hK : ∀ d ∈ dirs dim3, cellSum 0 fs (fun f _ => -(tShear f d * sgnSum f.sides)) ≠ 0)
+    (hmu : (cells 0).vol / (cells 0).mu ≠ 0) (hlam : (cells 0).vol / (cells 0).lam ≠ 0) :
+    Nonsingular dim3 fs cells 1 := by
+  intro a b ha hb c hc
+  have hc0 : c = 0 := by omega
+  subst hc0
+  have hab : resid dim3 fs cells a 0 = resid dim3 fs cells b 0 := by rw [ha 0 hc, hb 0 hc]
+  have hu : ∀ d ∈ dirs dim3, cellSum 0 fs (fun f g => stressFlux dim3 f a.u a.r a.p g d)
+      = cellSum 0 fs (fun f g => stressFlux dim3 f b.u b.r b.p g d) → (a.u 0).get d = (b.u 0).get d := by
+    intro d hd h
+    rw [mom_one_cell dim3 fs h1 hcl a d hd, mom_one_cell dim3 fs h1 hcl b d hd] at h
+    have := add_right_cancel h
+    exact mul_left_cancel₀ (hK d hd) this
+  have hr3 : ∀ d, cellSum 0 fs (fun f g => rotFlux3 f a.u a.r g d) = cellSum 0 fs (fun f g => rotFlux3 f b.u b.r g d) :=
+    fun d => cellSum_congr 0 (fun p hp => (rotmass_dirFace0 dim3 (h1 p hp) a b p.2).1 d)
+  have hr2 : cellSum 0 fs (fun f g => rotFlux2 f a.u a.r g) = cellSum 0 fs (fun f g => rotFlux2 f b.u b.r g) :=
+    cellSum_congr 0 (fun p hp => (rotmass_dirFace0 dim3 (h1 p hp) a b p.2).2.1)
+  have hm : cellSum 0 fs (fun f g => massFlux dim3 f a.u a.p g) = cellSum 0 fs (fun f g => massFlux dim3 f b.u b.p g) :=
+    cellSum_congr 0 (fun p hp => (rotmass_dirFace0 dim3 (h1 p hp) a b p.2).2.2)
+  have cancel : ∀ (k x y s : Rat), k ≠ 0 → s - k * x = s - k * y → x = y := by
+    intro k x y s hk h
+    have : k * x = k * y := by linarith
+    exact mul_left_cancel₀ hk this
+  cases dim3 with
+  | true =>
+    simp only [resid, Resid.mk.injEq, Vec.mk.injEq, if_true] at hab
+    obtain ⟨⟨hx, hy, hz⟩, ⟨rx, ry, rz⟩, hp⟩ := hab
+    refine ⟨?_, ?_, ?_⟩
+    · intro d hd
+      cases d
+      · exact hu .x hd hx
+      · exact hu .y hd hy
+      · exact hu .z hd hz
+    · show a.r 0 = b.r 0
+      rw [hr3 .x] at rx; rw [hr3 .y] at ry; rw [hr3 .z] at rz
+      exact Vec.ext' (cancel _ _ _ _ hmu rx) (cancel _ _ _ _ hmu ry) (cancel _ _ _ _ hmu rz)
+    · rw [hm] at hp
+      exact cancel _ _ _ _ hlam hp
+  | false =>
+    simp only [resid, Resid.mk.injEq, Vec.mk.injEq, Bool.false_eq_true, if_false] at hab
+    obtain ⟨⟨hx, hy, _⟩, ⟨_, _, rz⟩, hp⟩ := hab
+    refine ⟨?_, ?_, ?_⟩
+    · intro d hd
+      cases d
+      · exact hu .x hd hx
+      · exact hu .y hd hy
+      · simp [dirs] at hd
+    · show (a.r 0).z = (b.r 0).z
+      rw [hr2] at rz
+      exact cancel _ _ _ _ hmu rz
+    · rw [hm] at hp
+      exact cancel _ _ _ _ hlam hp
+
+/-- … hence on every such grid the solve returns the translation -/
+theorem tpsa_translation_unique_one_cell (dim3 : Bool) (fs : Faces) (cells : Nat → Cell) (t : Vec)
+    (hG : GridOK dim3 fs t) (h1 : OneCellDir fs) (hcl : closure 0 fs = Vec.zero)
+    (hK : ∀ d ∈ dirs dim3, cellSum 0 fs (fun f _ => -(tShear f d * sgnSum f.sides)) ≠ 0)
+    (hmu : (cells 0).vol / (cells 0).mu ≠ 0) (hlam : (cells 0).vol / (cells 0).lam ≠ 0)
+    (st : State) (hst : Solves dim3 fs cells 1 st) :
+    (∀ d ∈ dirs dim3, (st.u 0).get d = t.get d)
+      ∧ (if dim3 then st.r 0 = Vec.zero else (st.r 0).z = 0) ∧ st.p 0 = 0 :=
+  tpsa_translation_unique dim3 fs cells 1 t hG
+    (fun c hc => by
+      have h0 : c = 0 := Nat.lt_one_iff.mp hc
+      subst h0
+      exact hcl)
+    (nonsingular_one_cell_dirichlet dim3 fs cells h1 hcl hK hmu hlam) st hst 0 (by omega)
+
+/-- a triangle cell (vertices (0,0), (2,0), (0,1)); faces: bottom, hypotenuse, left; distances = inradius-type data -/
+def triCell : Faces :=
+  [ (⟨2, ⟨0, 2, 0⟩, [⟨0, -1, 3, 1/3⟩], .dir, .dir, .dir⟩, ⟨1, -1, 0⟩),
+    (⟨9/4, ⟨1, 2, 0⟩, [⟨0, 1, 3, 2/5⟩], .dir, .dir, .dir⟩, ⟨1, -1, 0⟩),
+    (⟨1, ⟨1, 0, 0⟩, [⟨0, -1, 3, 2/3⟩], .dir, .dir, .dir⟩, ⟨1, -1, 0⟩) ]
+
+example (st : State) (hst : Solves false triCell (fun _ => ⟨1, 3, 7⟩) 1 st) :
+    (st.u 0).x = 1 ∧ (st.u 0).y = -1 ∧ (st.r 0).z = 0 ∧ st.p 0 = 0 := by
+  have h := tpsa_translation_unique_one_cell false triCell (fun _ => ⟨1, 3, 7⟩) ⟨1, -1, 0⟩
+    (by decide +kernel) (by decide +kernel) (by decide +kernel) (by decide +kernel) (by decide +kernel)
+    (by decide +kernel) st hst
+  obtain ⟨hu, hr, hp⟩ := h
+  refine ⟨hu .x (by simp [dirs]), hu .y (by simp [dirs]), ?_, hp⟩
+  simpa using hr
+
+
+/-! ### characterisation of the singular mixed case -/
+
+
+/-- two different solutions refute nonsingularity -/
+theorem not_nonsingular_of_two_solutions (dim3 : Bool) (fs : Faces) (cells : Nat → Cell) (nc : Nat) (a b : State)
+    (ha : Solves dim3 fs cells nc a) (hb : Solves dim3 fs cells nc b) (c : Nat) (hc : c < nc) (d : Dir)
+    (hd : d ∈ dirs dim3) (hne : (a.u c).get d ≠ (b.u c).get d) : ¬ Nonsingular dim3 fs cells nc :=
+  fun h => hne ((h a b ha hb c hc).1 d hd)
+
+/-- THE SINGULAR MIXED CASE: a strip one cell wide.  `column n t` is a column of `n` unit squares (mu = 1) stacked
+    in y: the bottom face carries the Dirichlet datum `t`, the 2n lateral faces and the top face are traction free
+    (Neumann, datum 0). -/
+def column (n : Nat) (t : Vec) : Faces :=
+  [(⟨1, ⟨0, 1, 0⟩, [⟨0, -1, 1, 1/2⟩], .dir, .dir, .int⟩, t)]
+    ++ (List.range n).flatMap (fun k =>
+        [(⟨1, ⟨1, 0, 0⟩, [⟨k, -1, 1, 1/2⟩], .neu, .neu, .int⟩, Vec.zero),
+         (⟨1, ⟨1, 0, 0⟩, [⟨k, 1, 1, 1/2⟩], .neu, .neu, .int⟩, Vec.zero)])
+    ++ (List.range (n - 1)).map (fun k =>
+        (⟨1, ⟨0, 1, 0⟩, [⟨k, 1, 1, 1/2⟩, ⟨k + 1, -1, 1, 1/2⟩], .int, .int, .int⟩, Vec.zero))
+    ++ [(⟨1, ⟨0, 1, 0⟩, [⟨n - 1, 1, 1, 1/2⟩], .neu, .neu, .int⟩, Vec.zero)]
+
+/-- the discrete null mode added to the translation: horizontal displacement growing linearly with the height of
+    the cell centre (`gamma * y_k`, `y_k = (2k+1)/2`), constant rotation `2 gamma`, zero solid pressure -/
+def shearMode (t : Vec) (gamma : Rat) : State :=
+  ⟨fun k => ⟨t.x + gamma * ((2 * (k : Rat) + 1) / 2), t.y, 0⟩, fun _ => ⟨0, 0, 2 * gamma⟩, fun _ => 0⟩
+
+def unitCells : Nat → Cell := fun _ => ⟨1, 1, 1⟩
+
+/-- both the translation and the translation plus the shear/rotation mode satisfy every balance equation -/
+theorem strip_null_mode :
+    (Solves false (column 1 tEx) unitCells 1 (translation tEx) ∧ Solves false (column 1 tEx) unitCells 1 (shearMode tEx 2))
+    ∧ (Solves false (column 2 tEx) unitCells 2 (translation tEx) ∧ Solves false (column 2 tEx) unitCells 2 (shearMode tEx 2))
+    ∧ (Solves false (column 3 tEx) unitCells 3 (translation tEx) ∧ Solves false (column 3 tEx) unitCells 3 (shearMode tEx (-1/3))) := by
+  unfold Solves
+  decide +kernel
+
+theorem strip_singular_3 : ¬ Nonsingular false (column 3 tEx) unitCells 3 :=
+  not_nonsingular_of_two_solutions false _ _ 3 (translation tEx) (shearMode tEx (-1/3))
+    strip_null_mode.2.2.1 strip_null_mode.2.2.2 0 (by omega) .x (by simp [dirs]) (by decide +kernel)
+
+theorem strip_singular_1 : ¬ Nonsingular false (column 1 tEx) unitCells 1 :=
+  not_nonsingular_of_two_solutions false _ _ 1 (translation tEx) (shearMode tEx 2)
+    strip_null_mode.1.1 strip_null_mode.1.2 0 (by omega) .x (by simp [dirs]) (by decide +kernel)
+
+/-- the data of the strip satisfy all hypotheses of `tpsa_translation_solves` (only `Nonsingular` fails) -/
+example : GridOK false (column 3 tEx) tEx ∧ ∀ c, c < 3 → closure c (column 3 tEx) = Vec.zero := by decide +kernel
+
+
+
+
+/-! ### Robin faces -/
+
+/-- Stress row of a Robin face-direction for the translated state (u = t, r = 0, p = 0), any datum `g`:
+    `sgn * ((1 - b + T) g - T t)` with `T = tShear` (harmonic combination of `mu/delta` and the Robin weight)
+    and `b = alpha / (2 mu/delta + alpha)`. -/
+theorem tpsa_robin_stress (dim3 : Bool) (f : Face) (t g : Vec) (d : Dir) (alpha : Rat) (hb : f.bc d = .rob alpha) :
+    stressFlux dim3 f (translation t).u (translation t).r (translation t).p g d
+      = sgnSum f.sides * ((1 - b2fRob f d + tShear f d) * g.get d - tShear f d * t.get d) := by
+  show stressU f (fun _ => t) d
+      + (if dim3 then stressR3 f (fun _ => Vec.zero) d else stressR2 f (fun _ => Vec.zero) d)
+      + stressP f (fun _ => 0) d + stressG f g d = _
+  rw [stressR3_zero, stressR2_zero, stressP_zero, stressU_const, stressG_eq]
+  have : (if dim3 then (0 : Rat) else 0) = 0 := by split <;> rfl
+  rw [this]
+  simp only [trmNd, trmBnd, hb]
+  ring
+
+/-- … hence the stress vanishes for exactly one datum, `g = T t / (1 - b + T)` — which is NOT the translation
+    (Dirichlet-like) and not zero (Neumann-like) -/
+theorem tpsa_robin_zero_stress_iff (dim3 : Bool) (f : Face) (t g : Vec) (d : Dir) (alpha : Rat)
+    (hb : f.bc d = .rob alpha) (hs : sgnSum f.sides ≠ 0) (hk : 1 - b2fRob f d + tShear f d ≠ 0) :
+    stressFlux dim3 f (translation t).u (translation t).r (translation t).p g d = 0
+      ↔ g.get d = tShear f d * t.get d / (1 - b2fRob f d + tShear f d) := by
+  rw [tpsa_robin_stress dim3 f t g d alpha hb]
+  constructor
+  · intro h
+    have h2 : (1 - b2fRob f d + tShear f d) * g.get d - tShear f d * t.get d = 0 := by
+      rcases mul_eq_zero.mp h with h | h
+      · exact absurd h hs
+      · exact h
+    field_simp
+    linarith
+  · intro h
+    rw [h]
+    field_simp
+    ring
+
+/-- Face displacement on a Robin face-direction for the translated state: the weighted mean
+    `(Σ 2mu/delta * t + (alpha + 1/area) g) / (Σ 2mu/delta + alpha)`. -/
+theorem tpsa_robin_face_disp (f : Face) (t g : Vec) (d : Dir) (alpha : Rat) (hb : f.bc d = .rob alpha) :
+    (faceDisp f (fun _ => t) g).get d
+      = (sumTwoM f.sides * t.get d + (alpha + 1 / f.area) * g.get d) / (sumTwoM f.sides + alpha) := by
+  have hmu : muSum f d = sumTwoM f.sides + alpha := by simp [muSum, hb, BC.robW]
+  have hw : ∀ s, c2fW f d s = 2 * s.m / (sumTwoM f.sides + alpha) := by
+    intro s; simp [c2fW, hb, hmu]
+  have hg : gammaB f d = 1 / f.area * (1 / (sumTwoM f.sides + alpha)) + alpha / (sumTwoM f.sides + alpha) := by
+    simp [gammaB, b2fRob, hb, hmu, BC.isNeu, BC.isRob, BC.isDir]
+  have key : sideSum f.sides (fun s => c2fW f d s * t.get d) + gammaB f d * g.get d
+      = (sumTwoM f.sides * t.get d + (alpha + 1 / f.area) * g.get d) / (sumTwoM f.sides + alpha) := by
+    rw [sideSum_congr (fun s _ => by rw [hw s]), sideSum_div, hg]
+    ring
+  cases d
+  · exact key
+  · exact key
+  · exact key
+
+/-- a boundary face with Robin weight 1 (unit area, mu = 1, delta = 1/2) -/
+def fRob : Face := ⟨1, ⟨1, 0, 0⟩, [⟨0, 1, 1, 1/2⟩], .rob 1, .rob 1, .rob 1⟩
+
+/-- Robin data cannot be consistent with a translation: the datum that makes the stress vanish (5/8 t) is not the
+    datum that makes the face displacement equal t (1/2 t).  This is why the property (and `FaceOK`) exclude Robin
+    faces; the Robin entries of the matrices are still tied to the model by the correspondence check. -/
+theorem robin_not_translation_consistent :
+    ¬ ∃ g : Vec, stressFlux false fRob (translation ⟨1, 0, 0⟩).u (translation ⟨1, 0, 0⟩).r (translation ⟨1, 0, 0⟩).p g .x = 0
+        ∧ (faceDisp fRob (fun _ => ⟨1, 0, 0⟩) g).get .x = 1 := by
+  rintro ⟨g, h1, h2⟩
+  rw [tpsa_robin_stress false fRob ⟨1, 0, 0⟩ g .x 1 rfl] at h1
+  rw [tpsa_robin_face_disp fRob ⟨1, 0, 0⟩ g .x 1 rfl] at h2
+  have e1 : sgnSum fRob.sides = 1 := by decide +kernel
+  have e2 : b2fRob fRob .x = 1 / 5 := by decide +kernel
+  have e3 : tShear fRob .x = 4 / 3 := by decide +kernel
+  have e4 : sumTwoM fRob.sides = 4 := by decide +kernel
+  have e5 : fRob.area = 1 := rfl
+  rw [e1, e2, e3] at h1
+  rw [e4, e5] at h2
+  simp only [Vec.get] at h1 h2
+  have h2' : (4 * 1 + (1 + 1 / 1) * g.x) = 1 * (4 + 1) := by
+    have := h2
+    field_simp at this
+    linarith
+  linarith
+
+
 /-! ### non-vacuity: concrete grids -/
 
 section Examples
@@ -215,7 +443,6 @@ def sq1 (bW bE bS bN : BC × BC) (gW gE gS gN : Vec) : Faces :=
     (⟨1, ⟨0, 1, 0⟩, [⟨0, -1, 2, 1/2⟩], bS.1, bS.2, .int⟩, gS),
     (⟨1, ⟨0, 1, 0⟩, [⟨0, 1, 2, 1/2⟩], bN.1, bN.2, .int⟩, gN) ]
 
-def tEx : Vec := ⟨3, -5/2, 0⟩
 
 /-- mixed data: west Dirichlet, east Neumann, south rolling (Dirichlet in x, Neumann in y), north Dirichlet -/
 def sqMixed : Faces :=
@@ -296,6 +523,115 @@ example (st : State) (hst : Solves false sqDir cellsEx 1 st) :
   obtain ⟨hu, hr, hp⟩ := h
   refine ⟨hu .x (by simp [dirs]), hu .y (by simp [dirs]), ?_, hp⟩
   simpa using hr
+/-! a grid with an interior face: two cells, explicit computation -/
+
+
+/-- two unit squares side by side (cells 0 and 1, shear moduli 2 and 5), faces in porepy's order:
+    x-faces at x = 0, 1 (interior), 2; y-faces bottom of cell 0, bottom of cell 1, top of cell 0, top of cell 1;
+    Dirichlet datum `tEx` on the whole boundary -/
+def grid21 : Faces :=
+  [ (⟨1, ⟨1, 0, 0⟩, [⟨0, -1, 2, 1/2⟩], .dir, .dir, .int⟩, tEx),
+    (⟨1, ⟨1, 0, 0⟩, [⟨0, 1, 2, 1/2⟩, ⟨1, -1, 5, 1/2⟩], .int, .int, .int⟩, Vec.zero),
+    (⟨1, ⟨1, 0, 0⟩, [⟨1, 1, 5, 1/2⟩], .dir, .dir, .int⟩, tEx),
+    (⟨1, ⟨0, 1, 0⟩, [⟨0, -1, 2, 1/2⟩], .dir, .dir, .int⟩, tEx),
+    (⟨1, ⟨0, 1, 0⟩, [⟨1, -1, 5, 1/2⟩], .dir, .dir, .int⟩, tEx),
+    (⟨1, ⟨0, 1, 0⟩, [⟨0, 1, 2, 1/2⟩], .dir, .dir, .int⟩, tEx),
+    (⟨1, ⟨0, 1, 0⟩, [⟨1, 1, 5, 1/2⟩], .dir, .dir, .int⟩, tEx) ]
+
+def cells21 : Nat → Cell := fun c => if c = 0 then ⟨1, 2, 3⟩ else ⟨1, 5, 3⟩
+
+/-- the four balance equations of cell 0 of `grid21`, written out (rows of `div F - accum` and of `div R g`) -/
+theorem eqs21_cell0 (st : State) (h : resid false grid21 cells21 st 0 = Resid.zero) :
+    (-208/7) * (st.u 0).x + (40/7) * (st.u 1).x + (-2/7) * st.p 0 + (2/7) * st.p 1 + 72 = 0
+    ∧ (-208/7) * (st.u 0).y + (40/7) * (st.u 1).y + (-2/7) * (st.r 0).z + (2/7) * (st.r 1).z + (-60) = 0
+    ∧ (-2/7) * (st.u 0).y + (-5/7) * (st.u 1).y + (-1/2) * (st.r 0).z + (-5/2) = 0
+    ∧ (2/7) * (st.u 0).x + (5/7) * (st.u 1).x + (-31/84) * st.p 0 + (1/28) * st.p 1 + (-3) = 0 := by
+  simp only [resid, grid21, cellSum, sgnOf, sideSum, stressFlux, stressU, stressG, stressR2, stressP, nvd,
+    rotFlux2, rotRot2, massFlux, massP, faceDisp, sideVec, c2fW, gammaB, trmNd, trmBnd, tShear, muSum, b2fRob,
+    sumInvM, sumTwoM, Side.m, Face.bc, BC.robInv, BC.robW, BC.isDir, BC.isNeu, BC.isRob, notNeu, neuRob, arith,
+    dirNotpass, argmaxDir, absR, tEx, cells21, Vec.get, robProj, Resid.zero, Vec.zero, Resid.mk.injEq,
+    Vec.mk.injEq] at h
+  norm_num at h
+  obtain ⟨⟨hx, hy⟩, hr, hp⟩ := h
+  refine ⟨?_, ?_, ?_, ?_⟩ <;> linarith
+
+theorem eqs21_cell1 (st : State) (h : resid false grid21 cells21 st 1 = Resid.zero) :
+    (40/7) * (st.u 0).x + (-460/7) * (st.u 1).x + (-5/7) * st.p 0 + (5/7) * st.p 1 + 180 = 0
+    ∧ (40/7) * (st.u 0).y + (-460/7) * (st.u 1).y + (-5/7) * (st.r 0).z + (5/7) * (st.r 1).z + (-150) = 0
+    ∧ (2/7) * (st.u 0).y + (5/7) * (st.u 1).y + (-1/5) * (st.r 1).z + (5/2) = 0
+    ∧ (-2/7) * (st.u 0).x + (-5/7) * (st.u 1).x + (1/28) * st.p 0 + (-31/84) * st.p 1 + 3 = 0 := by
+  simp only [resid, grid21, cellSum, sgnOf, sideSum, stressFlux, stressU, stressG, stressR2, stressP, nvd,
+    rotFlux2, rotRot2, massFlux, massP, faceDisp, sideVec, c2fW, gammaB, trmNd, trmBnd, tShear, muSum, b2fRob,
+    sumInvM, sumTwoM, Side.m, Face.bc, BC.robInv, BC.robW, BC.isDir, BC.isNeu, BC.isRob, notNeu, neuRob, arith,
+    dirNotpass, argmaxDir, absR, tEx, cells21, Vec.get, robProj, Resid.zero, Vec.zero, Resid.mk.injEq,
+    Vec.mk.injEq] at h
+  norm_num at h
+  obtain ⟨⟨hx, hy⟩, hr, hp⟩ := h
+  refine ⟨?_, ?_, ?_, ?_⟩ <;> linarith
+
+/-- the 8 x 8 matrix of `grid21` is nonsingular: two solutions of the eight equations coincide -/
+theorem lin21 (ax0 ay0 ax1 ay1 ar0 ar1 ap0 ap1 bx0 by0 bx1 by1 br0 br1 bp0 bp1 : Rat)
+    (a1 : (-208/7) * ax0 + (40/7) * ax1 + (-2/7) * ap0 + (2/7) * ap1 + 72 = 0)
+    (a2 : (-208/7) * ay0 + (40/7) * ay1 + (-2/7) * ar0 + (2/7) * ar1 + (-60) = 0)
+    (a3 : (-2/7) * ay0 + (-5/7) * ay1 + (-1/2) * ar0 + (-5/2) = 0)
+    (a4 : (2/7) * ax0 + (5/7) * ax1 + (-31/84) * ap0 + (1/28) * ap1 + (-3) = 0)
+    (a5 : (40/7) * ax0 + (-460/7) * ax1 + (-5/7) * ap0 + (5/7) * ap1 + 180 = 0)
+    (a6 : (40/7) * ay0 + (-460/7) * ay1 + (-5/7) * ar0 + (5/7) * ar1 + (-150) = 0)
+    (a7 : (2/7) * ay0 + (5/7) * ay1 + (-1/5) * ar1 + (5/2) = 0)
+    (a8 : (-2/7) * ax0 + (-5/7) * ax1 + (1/28) * ap0 + (-31/84) * ap1 + 3 = 0)
+    (b1 : (-208/7) * bx0 + (40/7) * bx1 + (-2/7) * bp0 + (2/7) * bp1 + 72 = 0)
+    (b2 : (-208/7) * by0 + (40/7) * by1 + (-2/7) * br0 + (2/7) * br1 + (-60) = 0)
+    (b3 : (-2/7) * by0 + (-5/7) * by1 + (-1/2) * br0 + (-5/2) = 0)
+    (b4 : (2/7) * bx0 + (5/7) * bx1 + (-31/84) * bp0 + (1/28) * bp1 + (-3) = 0)
+    (b5 : (40/7) * bx0 + (-460/7) * bx1 + (-5/7) * bp0 + (5/7) * bp1 + 180 = 0)
+    (b6 : (40/7) * by0 + (-460/7) * by1 + (-5/7) * br0 + (5/7) * br1 + (-150) = 0)
+    (b7 : (2/7) * by0 + (5/7) * by1 + (-1/5) * br1 + (5/2) = 0)
+    (b8 : (-2/7) * bx0 + (-5/7) * bx1 + (1/28) * bp0 + (-31/84) * bp1 + 3 = 0) :
+    ax0 = bx0 ∧ ay0 = by0 ∧ ax1 = bx1 ∧ ay1 = by1 ∧ ar0 = br0 ∧ ar1 = br1 ∧ ap0 = bp0 ∧ ap1 = bp1 := by
+  refine ⟨?_, ?_, ?_, ?_, ?_, ?_, ?_, ?_⟩ <;> linarith
+
+/-- NONSINGULARITY BY EXPLICIT COMPUTATION for a grid with an interior face: the two-cell all-Dirichlet system
+    (8 unknowns, heterogeneous shear modulus) has at most one solution. -/
+theorem nonsingular_grid21 : Nonsingular false grid21 cells21 2 := by
+  intro a b ha hb
+  obtain ⟨a1, a2, a3, a4⟩ := eqs21_cell0 a (ha 0 (by omega))
+  obtain ⟨a5, a6, a7, a8⟩ := eqs21_cell1 a (ha 1 (by omega))
+  obtain ⟨b1, b2, b3, b4⟩ := eqs21_cell0 b (hb 0 (by omega))
+  obtain ⟨b5, b6, b7, b8⟩ := eqs21_cell1 b (hb 1 (by omega))
+  obtain ⟨k0x, k0y, k1x, k1y, kr0, kr1, kp0, kp1⟩ :=
+    lin21 _ _ _ _ _ _ _ _ _ _ _ _ _ _ _ _ a1 a2 a3 a4 a5 a6 a7 a8 b1 b2 b3 b4 b5 b6 b7 b8
+  intro c hc
+  have hc' : c = 0 ∨ c = 1 := by omega
+  rcases hc' with rfl | rfl
+  · refine ⟨?_, ?_, kp0⟩
+    · intro d hd
+      simp [dirs] at hd
+      rcases hd with rfl | rfl
+      · exact k0x
+      · exact k0y
+    · show (if false = true then a.r 0 = b.r 0 else (a.r 0).z = (b.r 0).z)
+      simp only [Bool.false_eq_true, if_false]
+      exact kr0
+  · refine ⟨?_, ?_, kp1⟩
+    · intro d hd
+      simp [dirs] at hd
+      rcases hd with rfl | rfl
+      · exact k1x
+      · exact k1y
+    · show (if false = true then a.r 1 = b.r 1 else (a.r 1).z = (b.r 1).z)
+      simp only [Bool.false_eq_true, if_false]
+      exact kr1
+
+/-- … so on this grid the solve returns the translation in both cells -/
+example (st : State) (hst : Solves false grid21 cells21 2 st) (c : Nat) (hc : c < 2) :
+    (st.u c).x = 3 ∧ (st.u c).y = -5/2 ∧ (st.r c).z = 0 ∧ st.p c = 0 := by
+  have h := tpsa_translation_unique false grid21 cells21 2 tEx (by decide +kernel)
+    (by decide +kernel) nonsingular_grid21 st hst c hc
+  obtain ⟨hu, hr, hp⟩ := h
+  refine ⟨hu .x (by simp [dirs]), hu .y (by simp [dirs]), ?_, hp⟩
+  simpa using hr
+
+
 end Examples
 
 end PorepyVerif.C16
